@@ -18,7 +18,7 @@ static uint8_t sent_app[W], delivered[W];
 int main(void)
 {
   world_init(0);
-  uint32_t n = nondet_u32(); VF_ASSUME(n >= 1 && n < 1000000); cx_n = n;
+  uint32_t n = nondet_u32(); VF_ASSUME(n >= 1 && n <= 0x7fffff00u);     /* FIX SeqNum domain (positive int): numbers from 2^31 on are outside (NewSeqNo is parsed as int) */ cx_n = n;
   vf_sess_set_seq(BASE, 7, n); vf_sess_set_state(BASE, st_continuous); vf_sess_set_active(BASE, 1);
   vf_sess_set_flags(BASE, 1, 0, 0, 0, 0);
   uint8_t s[1] = { 'S' }, t[1] = { 'T' }; vf_sess_set_sid(BASE, s, 1, t, 1);
@@ -48,8 +48,8 @@ int main(void)
     uint8_t ty[2] = { type, 0 }; msg_init(ty, 1); vf_msg_set_compids(&the_msg, t, 1, s, 1);
     m_is_admin = type != 'D'; m_has_pd = pd; m_pd = pd; m_has_st = 1; m_st = clock; m_has_ost = pd; m_ost = clock - 1; clock += 10;
     m_has_nsn = type == '4'; m_nsn = (int32_t)nsn; m_has_trid = 0;
-    uint8_t d[ND]; digits_of(d, seq);
-    uint8_t raw[16]; uint32_t rawn = raw_seq(raw, d);
+    
+    uint8_t raw[12]; uint32_t rawn = raw_abs(raw, seq);
     int out0 = out_n, del0 = n_deliver;
     uint8_t ret = vf_process(SESS, raw, rawn);
     int thrown = __vf_exc_pending; __vf_exc_pending = 0;
